@@ -215,7 +215,7 @@ impl Check for C17 {
         let mut wl = Rng::derive(seed, "workload");
         let mut ar = Rng::derive(seed, "arena");
         let hash_key = Rng::derive(seed, "hash").next_u64();
-        let gcfg = GenCfg::draw(&mut wl);
+        let gcfg = GenCfg { large: true, ..GenCfg::draw(&mut wl) };
         let mut panics = 0u64;
 
         // ---- scenario 1: single write, capacity sweep, twin residue
